@@ -660,9 +660,52 @@ func genRequest(g *Gen, spatial bool) (params, []tile, []string) {
 		t, zt := genTile(g, p, 9)
 		tags = append(tags, zt)
 		ts = []tile{t}
-		n := 1 + g.Intn(4)
-		for i := 0; i < n; i++ {
-			ts = append(ts, overlapping(g, ts[g.Intn(len(ts))]))
+		if g.Chance(0.35) {
+			// a run of 3..5 consecutive key cells of ONE column, permuted, sometimes followed by the coarser cell over the first of them:
+			// a later tile's covering range then has both ends already reported by two different earlier tiles while its interior is new
+			// (the ends overlap whenever the offset is not aligned to the cell height)
+			tags = append(tags, "column-run")
+			if g.Chance(0.7) { // output indices of 2..8 m, key cells of 2 or 4 of them, an odd offset: neighbouring ranges share their end index
+				j := 1 + g.Int63n(3)
+				p.E = g.Pick(25, 25, 24, 26, 20, 30)
+				p.outV = 25 - j
+				p.O = sign(g, g.Pick(1, 1, 3, 5, 7, 2*g.Int63n(1000)+1))
+				tags = append(tags, "misaligned")
+				kz := p.E - (j + 1 + g.Int63n(2))
+				t[3] = kz
+				t[4], _ = zFor(g, p, kz)
+				if spatial {
+					t[0] = hzoomFor(g, p, 4)
+					t[1], t[2] = g.HIndex(t[0]), g.HIndex(t[0])
+				}
+			} else {
+				t, _ = genTile(g, p, 5)
+			}
+			k := int64(3 + g.Intn(3))
+			if t[4]+k > pow2(t[3]) {
+				t[4] = pow2(t[3]) - k
+				if t[4] < 0 {
+					t[4] = 0
+				}
+			}
+			ts = nil
+			for i := int64(0); i < k; i++ {
+				if u := t; t[4]+i < pow2(t[3]) {
+					u[4] = t[4] + i
+					ts = append(ts, u)
+				}
+			}
+			ts = shuffle(g, ts)
+			if g.Chance(0.4) && t[3] > 0 {
+				u := t
+				u[3], u[4] = t[3]-1, t[4]>>1
+				ts = append(ts, u)
+			}
+		} else {
+			n := 1 + g.Intn(4)
+			for i := 0; i < n; i++ {
+				ts = append(ts, overlapping(g, ts[g.Intn(len(ts))]))
+			}
 		}
 	case c < 78: // duplicated and permuted tiles
 		mode = "req:duplicates"
